@@ -222,6 +222,12 @@ theorem maximal_room :
     not its four children. -/
 example : cellsOf Params.hpx 64 1 [(3 * 2 ^ 58, 4 * 2 ^ 58)] = [(0, 3)] := by decide
 
+/-- **`uniq_hpx_to_range`**: the range computed from the NUNIQ number of a cell is the range of that cell (decode, then
+    shift by twice the depth difference), for every depth and every cell index of the HEALPix domain. -/
+theorem nuniq_to_range (w d i : Nat) (hi : i < 12 * 4 ^ d) :
+    rangeOfCell Params.hpx w (fromUniqHpx (uniqHpx d i)) = rangeOfCell Params.hpx w (d, i) := by
+  rw [fromUniqHpx_uniqHpx d i hi]
+
 theorem cells_injective (q : Qty) (hq : q.dim = 1 ∨ q.dim = 2) (w d : Nat) (hd : d ≤ q.maxDepth w)
     (l1 l2 : List Rng) (h1 : Valid q w d l1) (h2 : Valid q w d l2)
     (hc : cellsOf q w d l1 = cellsOf q w d l2) : l1 = l2 := by
